@@ -146,7 +146,10 @@ def gen_fallback(rng):
         base = G.gen_case(rng, layout=rng.choice(['TRS_desc', 'S_desc_TR']),
                           max_groups=2, max_secs=2)
         text = base['text'].replace(':', '')
-        cfg = 'sec_colon_required'
+        cfg = rng.choice(['sec_colon_required', 'sec_colon_required',
+                          'sec_colon_required,sec_within',
+                          'sec_within,sec_colon_required,parse_qq',
+                          'sec_colon_required,sec_colon_cautious'])
     else:
         base = G.gen_case(rng, max_groups=2, max_secs=2)
         drop = 'twprge' if kind == 'no-twprge' else 'sec'
